@@ -147,6 +147,9 @@ func cmdCheck(args []string) int {
 		genProblems = gen.Problems
 		genChecked = len(gen.Functions)
 	}
+	// a property with hundreds of functions (the generated catalog of C15): the thorough tier keeps its cross-check by a
+	// second solver but with small budgets, so that it ends within the hour
+	opt.Light = opt.Thorough && len(fns) > 100
 	results := eng.verifyAll(fns, opt)
 	known := loadKnown(opt.Verif)
 	opt.ExpectFail = map[string]bool{}
